@@ -15,6 +15,12 @@ structure Sem (σ : Type) where
   act : Nat → σ → σ
   cval : Nat → σ → Bool
   ceff : Nat → σ → σ
+  /-- `range`: RANGE pops the item the leaf pushed and installs an iterator in the hidden slot `r`;
+      ITER asks it for the next pair and stores it in the key / value slots (`some`), or finds it
+      exhausted (`none`, the state is then `rdone`) -/
+  rinit : Int → σ → σ := fun _ s => s
+  rnext : Int → Int → σ → Option σ := fun _ _ _ => none
+  rdone : Int → σ → σ := fun _ s => s
 
 inductive Out where | normal | brk | cont | ret
   deriving DecidableEq
@@ -48,6 +54,30 @@ inductive Exec : Stmt → σ → Out → σ → Prop where
   | swcT {c a r s o s'} : M.cval c s = true → Exec a (M.ceff c s) o s' → o ≠ .brk → Exec (.swc c a r) s o s'
   | swcB {c a r s s'} : M.cval c s = true → Exec a (M.ceff c s) .brk s' → Exec (.swc c a r) s .normal s'
   | swcF {c a r s o s'} : M.cval c s = false → Exec r (M.ceff c s) o s' → Exec (.swc c a r) s o s'
+  -- range: the item is evaluated once; `S i` is the state before the i-th request to the iterator,
+  -- `A i` the state with the i-th pair assigned; `n` full passes (each ending normally or by
+  -- `continue`) are followed by exhaustion, by a pass that breaks, or by one that returns
+  | rngEnd {r kv it b s} {n : Nat} {A S : Nat → σ} {O : Nat → Out} :
+      S 0 = M.rinit r (M.act it s) →
+      (∀ i, i < n → M.rnext r kv (S i) = some (A i)) →
+      (∀ i, i < n → Exec b (A i) (O i) (S (i+1))) →
+      (∀ i, i < n → O i ≠ .brk ∧ O i ≠ .ret) →
+      M.rnext r kv (S n) = none →
+      Exec (.rng r kv it b) s .normal (M.rdone r (S n))
+  | rngBrk {r kv it b s a s'} {n : Nat} {A S : Nat → σ} {O : Nat → Out} :
+      S 0 = M.rinit r (M.act it s) →
+      (∀ i, i < n → M.rnext r kv (S i) = some (A i)) →
+      (∀ i, i < n → Exec b (A i) (O i) (S (i+1))) →
+      (∀ i, i < n → O i ≠ .brk ∧ O i ≠ .ret) →
+      M.rnext r kv (S n) = some a → Exec b a .brk s' →
+      Exec (.rng r kv it b) s .normal s'
+  | rngRet {r kv it b s a s'} {n : Nat} {A S : Nat → σ} {O : Nat → Out} :
+      S 0 = M.rinit r (M.act it s) →
+      (∀ i, i < n → M.rnext r kv (S i) = some (A i)) →
+      (∀ i, i < n → Exec b (A i) (O i) (S (i+1))) →
+      (∀ i, i < n → O i ≠ .brk ∧ O i ≠ .ret) →
+      M.rnext r kv (S n) = some a → Exec b a .ret s' →
+      Exec (.rng r kv it b) s .ret s'
 
 abbrev Cfg (σ : Type) := Nat × List Bool × σ
 
@@ -72,6 +102,12 @@ inductive Step (C : List Instr) : Cfg σ → Cfg σ → Prop where
   | jtT {pc : Nat} {stk s i} {tgt : Nat} : C[pc]? = some i → i.op = "JUMPTRUE" →
       (tgt : Int) = (pc : Int) + i.a + 1 → Step C (pc, true :: stk, s) (tgt, stk, s)
   | ret {pc stk s i} : C[pc]? = some i → i.op = "RETURN" → Step C (pc, stk, s) (C.length, stk, s)
+  | range {pc : Nat} {stk s i} {tgt : Nat} : C[pc]? = some i → i.op = "RANGE" →
+      (tgt : Int) = (pc : Int) + i.b + 1 → Step C (pc, stk, s) (tgt, stk, M.rinit i.a s)
+  | iterT {pc : Nat} {stk s s1 i} {tgt : Nat} : C[pc]? = some i → i.op = "ITER" → M.rnext i.a i.b s = some s1 →
+      (tgt : Int) = (pc : Int) + i.c + 1 → Step C (pc, stk, s) (tgt, stk, s1)
+  | iterF {pc stk s i} : C[pc]? = some i → i.op = "ITER" → M.rnext i.a i.b s = none →
+      Step C (pc, stk, s) (pc + 1, stk, M.rdone i.a s)
 
 inductive Star (C : List Instr) : Cfg σ → Cfg σ → Prop where
   | refl {x} : Star C x x
@@ -231,5 +267,14 @@ theorem forever_code_noPH (ok : LeavesOK M L) (b p) : ∀ i ∈ compile L (.fore
   · exact noPH_rw _ _ _ i hi
   · exact ok.act_noPH p i hi
   · subst hi; exact jump_noPH _ _ (by decide)
+
+theorem rng_code_noPH (ok : LeavesOK M L) (r kv it b) : ∀ i ∈ compile L (.rng r kv it b), isPH i = false := by
+  intro i hi
+  simp only [compile, List.mem_append, List.mem_cons, List.mem_singleton, List.mem_nil_iff, or_false] at hi
+  rcases hi with ((hi | hi) | hi) | hi
+  · exact ok.act_noPH it i hi
+  · subst hi; rfl
+  · exact noPH_rw _ _ _ i hi
+  · subst hi; rfl
 
 end Goat.CF
